@@ -93,7 +93,7 @@ func judge(w *world, rq *request, c *reqCtx, code int, base backend.BasePayloadR
 	// a storage back-end that took seconds: whether the join-server gives up
 	// on such a request (a time-out policy) is not in the statement; it may
 	// answer non-Success, never a wrong Success
-	verySlow := c.slept >= 1e9
+	verySlow := c.slept >= 1e9 || c.cancelled // (a request whose client went away may be abandoned too)
 	badKEK := (kekUsable(nsLabel, nsKEK) && !validKEKLen(nsKEK)) || (kekUsable(asLabel, asKEK) && !validKEKLen(asKEK))
 	rxBad := rq.rxDelay < 0 || rq.rxDelay > 15
 
@@ -159,7 +159,7 @@ func judge(w *world, rq *request, c *reqCtx, code int, base backend.BasePayloadR
 
 	// ---- Success ----
 	_ = code // the HTTP status is not part of the statement
-	if unknown || c.firedKeys {
+	if unknown || (c.firedKeys && !c.gotKeys) {
 		simrt.Report("j4.success-despite-storage-error:"+kindName, "Success although storage returned no device keys")
 		return
 	}
@@ -174,8 +174,10 @@ func judge(w *world, rq *request, c *reqCtx, code int, base backend.BasePayloadR
 		simrt.Report("j4.success-despite-nonce-overflow:"+kindName, fmt.Sprintf("Success although the configured JoinNonce %d does not fit 24 bits", c.nonce))
 		return
 	}
-	if storageErr {
-		simrt.Report("j4.success-despite-storage-error:"+kindName, "Success although a storage callback of this request failed")
+	// a look-up that failed and was then served (a handler that retries a
+	// flaky back-end) is no obstacle to Success; one that was never served is
+	if (c.firedKEK && ((c.failKEK == 1 && !c.nsServed) || (c.failKEK == 2 && !c.asServed))) || (c.firedLabel && !c.labelServed) {
+		simrt.Report("j4.success-despite-storage-error:"+kindName, "Success although a storage callback of this request failed and was never served")
 		return
 	}
 	reqType := byte(spec.ReqJoin)
